@@ -3,6 +3,9 @@ import CoclsModel.Generated.AtomicSites
 import CoclsModel.TryLockClock
 import CoclsModel.TryLockClockProofs
 import CoclsModel.PingPongClock
+import CoclsModel.Generated.SharedAccess
+import CoclsModel.SignalClock
+import CoclsModel.SignalClockProofs
 /-!
 # C03, second part — the small lock-free protocols that are used REPEATEDLY, and the sites no publication goes through
 
@@ -370,5 +373,157 @@ theorem c03_small_sites_accounted :
     (Generated.atomicSites.filter (fun s => !s.inAssert &&
         (s.cls == "reusable_storage_mtsafe" || s.obj == "_block" || s.obj == "_elide_state" || s.cls == "async::co_awaiter"))).length
       = 3 + 4 + 3 + 2 := by decide
+
+/-! ## `signal<T>` — the whole protocol on the happens-before machine
+
+`Props/C03.lean` lists the signal as one line ("awaiter node via signal chain": subscribe CAS / `resume_chain` exchange).
+`SignalClock.lean` runs the WHOLE protocol — a collector thread emitting value after value and finally destroying the state, any number
+of emitters of both flavours (coroutines, `connect`ed callbacks) subscribing from their own threads at any moment, failed CAS tries,
+listeners resumed on the collector's thread that re-await at once / leave for another thread and come back / end — on the
+happens-before machine, with FastTrack metadata for EVERY plain location (`_cur_val`, `_value_storage`, the emitted value, each node's
+`_next` and handle / resume fn); `SignalClockProofs.signal_race_free` proves race freedom from `SignalOrders.sufficient`, which asks
+release of the subscribe CAS and acquire of the `resume_chain` exchange — for the NODES; nothing for the value: every access to `_cur_val`,
+`_value_storage` and the value is made by the collector's thread (`signal_waiter_sees_value`, `signal_value_thread0`; the access table
+is the module docstring of `SignalClock.lean`).  Here the orders are looked up in the extracted table.
+
+Model assumption → obligation that checks it against the source:
+
+| assumption of `SignalClock.lean` | obligation |
+|---|---|
+| `awaiter::subscribe` = one CAS (plus a load inside `assert`), `resume_chain` = one exchange; no other atomic operation in `resume_chain_lk` | `c03_signal_orders_current` (shape part of `signalOrdersOf`) |
+| `signal.h` has no atomic operation of its own: every synchronisation of the signal goes through those two | `c03_signal_no_own_atomics` |
+| in `subscribe` the only access to the node outside `assert` is the CAS's expected value (`_next`, read and written back), not after the successful CAS | `c03_signal_subscribe_accesses` |
+| per node the walker reads `_next`, writes `_next`, calls `resume()`, in this order | `c03_signal_walk_accesses` |
+
+ASSUMED, not checked against the source (the functions of `signal.h` are not among `SHARED_FUNCS` of `extract/extract.py`, so
+`Generated.plainAccesses` has no rows for them): `collector::operator()` writes `_value_storage` / `_cur_val` BEFORE `notify_awaiters()` and
+nothing after it; `~state` writes `_cur_val` before `notify_awaiters()`; `emitter::await_suspend` calls `set_handle` before `subscribe` and
+touches nothing of the awaiter afterwards; `emitter::await_resume` reads `_cur_val` only under a `lock()`ed strong reference; `Awt::resume`
+and `Awt::initial_reg` call `subscribe` last.  (Read off `signal.h` by hand when the model was written.) -/
+
+/-- synchronising operations outside assertions of one function, as (kind, object), in source order -/
+def shapeIn (tbl : List Site) (cls fn : String) : List (OpKind × String) :=
+  (tbl.filter (fun s => s.cls == cls && s.fn == fn && !s.inAssert)).map (fun s => (s.kind, s.obj))
+
+/-- the memory orders of the signal's chain according to the extracted table; `none` when a site is missing or `subscribe` /
+`resume_chain` / `resume_chain_lk` contain any other synchronising operation outside assertions -/
+def signalOrdersOf (tbl : List Site) : Option SignalClock.SignalOrders :=
+  if shapeIn tbl "awaiter" "subscribe" = [(OpKind.cas, "chain")] ∧ shapeIn tbl "awaiter" "resume_chain" = [(OpKind.xchg, "chain")]
+      ∧ shapeIn tbl "awaiter" "resume_chain_lk" = [] then
+    match siteAt tbl "awaiter" "subscribe" OpKind.cas 0, siteAt tbl "awaiter" "resume_chain" OpKind.xchg 0 with
+    | some cs, some x => some { casSucc := cs.succ, casFail := cs.fail, xchg := x.succ }
+    | _, _ => none
+  else none
+
+/-- **Table obligation**: on the current source the subscribe CAS releases and the `resume_chain` exchange acquires. -/
+theorem c03_signal_orders_current :
+    (signalOrdersOf Generated.atomicSites).map (·.sufficient) = some true := by decide
+
+/-- what the obligation buys, for any table that meets it: no plain access of the signal protocol races, for every assignment of
+flavours to any number of emitters and every schedule; whoever reads `_cur_val` / the value is the collector's thread and has the
+collector's write in its clock; erasing the clocks gives the run of the sequentially consistent base system -/
+theorem c03_signal_publish_safe (tbl : List Site) (h : (signalOrdersOf tbl).map (·.sufficient) = some true) :
+    ∃ o, signalOrdersOf tbl = some o
+      ∧ (∀ (c : SignalClock.Cfg) (sched : List (Nat × Nat)), (SignalClock.run o c sched).raced = false)
+      ∧ (∀ (c : SignalClock.Cfg) (sched : List (Nat × Nat)), (SignalClock.run o c sched).base.cpc ≠ SignalClock.CPc.idle →
+          (SignalClock.run o c sched).base.alive = true →
+          ((SignalClock.run o c sched).val.wr.1 = 0 ∧ 1 ≤ (SignalClock.run o c sched).val.wr.2
+            ∧ (SignalClock.run o c sched).val.wr.2 ≤ (SignalClock.run o c sched).clk 0 0)
+          ∧ ∀ e ∈ (SignalClock.run o c sched).val.rd, e.2 = 0 ∨ (e.1 = 0 ∧ e.2 ≤ (SignalClock.run o c sched).clk 0 0))
+      ∧ (∀ (c : SignalClock.Cfg) (sched : List (Nat × Nat)), (SignalClock.run o c sched).base = SignalClock.brun c sched) := by
+  cases ho : signalOrdersOf tbl with
+  | none => simp [ho] at h
+  | some o =>
+    have hs : o.sufficient = true := by simpa [ho] using h
+    refine ⟨o, rfl, SignalClock.signal_race_free o hs, fun c sched hp hal => ?_, fun c sched => SignalClock.base_run o c sched⟩
+    obtain ⟨_, hv, hr⟩ := SignalClock.signal_waiter_sees_value o hs c sched hp hal
+    exact ⟨hv, fun e he => hr e (List.mem_append.mpr (Or.inr he))⟩
+
+/-- **Main theorem at the current table's orders** -/
+theorem c03_signal_protocol_race_free :
+    ∃ o, signalOrdersOf Generated.atomicSites = some o
+      ∧ (∀ (c : SignalClock.Cfg) (sched : List (Nat × Nat)), (SignalClock.run o c sched).raced = false)
+      ∧ (∀ (c : SignalClock.Cfg) (sched : List (Nat × Nat)), (SignalClock.run o c sched).base.cpc ≠ SignalClock.CPc.idle →
+          (SignalClock.run o c sched).base.alive = true →
+          ((SignalClock.run o c sched).val.wr.1 = 0 ∧ 1 ≤ (SignalClock.run o c sched).val.wr.2
+            ∧ (SignalClock.run o c sched).val.wr.2 ≤ (SignalClock.run o c sched).clk 0 0)
+          ∧ ∀ e ∈ (SignalClock.run o c sched).val.rd, e.2 = 0 ∨ (e.1 = 0 ∧ e.2 ≤ (SignalClock.run o c sched).clk 0 0))
+      ∧ (∀ (c : SignalClock.Cfg) (sched : List (Nat × Nat)), (SignalClock.run o c sched).base = SignalClock.brun c sched) :=
+  c03_signal_publish_safe _ c03_signal_orders_current
+
+/-- necessity: the subscribe CAS relaxed — the walker's read of `_next` races with the emitter's initialisation of its node -/
+theorem c03_signal_needs_release_cas :
+    (SignalClock.run { SignalClock.srcOrders with casSucc := Order.relaxed } SignalClock.cfgMix SignalClock.schedOne).raced = true :=
+  SignalClock.signal_needs_release_cas
+
+/-- necessity: the `resume_chain` exchange relaxed -/
+theorem c03_signal_needs_acquire_xchg :
+    (SignalClock.run { SignalClock.srcOrders with xchg := Order.relaxed } SignalClock.cfgMix SignalClock.schedOne).raced = true :=
+  SignalClock.signal_needs_acquire_xchg
+
+/-- every order table that does not meet `sufficient` has a racing execution of the signal protocol: the condition is exact -/
+theorem c03_signal_orders_necessary (o : SignalClock.SignalOrders) :
+    (∀ (c : SignalClock.Cfg) (sched : List (Nat × Nat)), (SignalClock.run o c sched).raced = false) ↔ o.sufficient = true :=
+  SignalClock.signal_race_free_iff o
+
+/-- the VALUE needs no memory order at all: for EVERY order table (no hypothesis — all three sites relaxed included) no access to `_cur_val`,
+`_value_storage` or the emitted value races; these locations are accessed by the collector's thread only, the listeners' continuations
+run inside the collector's call -/
+theorem c03_signal_value_needs_no_order (o : SignalClock.SignalOrders) (c : SignalClock.Cfg) (sched : List (Nat × Nat)) :
+    (SignalClock.run o c sched).racedV = false :=
+  SignalClock.signal_value_needs_no_order o c sched
+
+/-- the base system of `SignalClock.lean` refines the publication micro-model `Signal.Pub` of C15 on the chain (events `cas` / `release`
+only, no access after the publishing CAS) -/
+theorem c03_signal_base_refines_pub (c : SignalClock.Cfg) (sched : List (Nat × Nat)) :
+    ∃ ops : List Signal.Pub.Op, (Signal.Pub.run ops).chain = (SignalClock.brun c sched).chain ∧ (∀ l, Signal.Pub.Op.post l ∉ ops) :=
+  SignalClock.base_refines_pub c sched
+
+/-- the CAS failure order is not constrained: whatever is written there, the protocol stays race free at the current table's other orders
+(deliberately no obligation that it IS relaxed: strengthening is harmless) -/
+theorem c03_signal_failure_order_free (f : Order) :
+    ∃ o, signalOrdersOf Generated.atomicSites = some o
+      ∧ ∀ (c : SignalClock.Cfg) (sched : List (Nat × Nat)), (SignalClock.run { o with casFail := f } c sched).raced = false := by
+  cases ho : signalOrdersOf Generated.atomicSites with
+  | none => have h := c03_signal_orders_current; simp [ho] at h
+  | some o =>
+    have hs : o.sufficient = true := by have h := c03_signal_orders_current; simpa [ho] using h
+    exact ⟨o, rfl, SignalClock.signal_race_free _ (by simpa [SignalClock.SignalOrders.sufficient] using hs)⟩
+
+/-- non-vacuity: four emitters of both flavours (1, 3 coroutines; 2, 4 callbacks; 4 subscribes LATE, during the first walk), failed CAS
+tries on both kinds of thread, two collector calls (by value, by lvalue), a coroutine that leaves the collector's thread and subscribes
+again from its own, a callback that answers false, a coroutine that ends, then `~state` with a coroutine and a callback still
+subscribed: seven reads of the value, all by thread 0, every emitter finished, nothing races — and the same run races as soon as either
+order is weakened -/
+example : (SignalClock.run SignalClock.srcOrders SignalClock.cfgMix SignalClock.schedMany).raced = false
+    ∧ (SignalClock.run SignalClock.srcOrders SignalClock.cfgMix SignalClock.schedMany).base.cpc = SignalClock.CPc.dead
+    ∧ (SignalClock.run SignalClock.srcOrders SignalClock.cfgMix SignalClock.schedMany).base.emitted = 2
+    ∧ (SignalClock.run SignalClock.srcOrders SignalClock.cfgMix SignalClock.schedMany).base.reads.length = 7
+    ∧ ((SignalClock.run SignalClock.srcOrders SignalClock.cfgMix SignalClock.schedMany).val.rd.all (fun e => e.1 == 0)) = true
+    ∧ (SignalClock.run { SignalClock.srcOrders with casSucc := Order.relaxed } SignalClock.cfgMix SignalClock.schedMany).raced = true
+    ∧ (SignalClock.run { SignalClock.srcOrders with xchg := Order.relaxed } SignalClock.cfgMix SignalClock.schedMany).raced = true := by
+  decide
+
+/-! position facts the model assumes about `awaiter.h` / `signal.h` -/
+
+/-- `signal.h` has no atomic operation of its own: no site on the state's `_chain` member, none in a class of `signal.h` -/
+theorem c03_signal_no_own_atomics :
+    (Generated.atomicSites.filter (fun s => s.obj == "_chain" || s.cls == "signal" || s.cls == "signal::state"
+      || s.cls == "signal::collector" || s.cls == "signal::emitter" || s.cls == "signal::hook_up_emitter" || s.cls == "Awt"
+      || s.cls == "signal::Awt" || s.cls == "signal::connect::Awt")).length = 0 := by decide
+
+/-- rows of one function outside assertions: (object, field, write, number of synchronising operations lexically before it) -/
+def plainShape (tbl : List PlainAccess) (cls fn : String) : List (String × String × Bool × Nat) :=
+  (tbl.filter (fun a => a.cls == cls && a.fn == fn && !a.inAssert)).map (fun a => (a.base, a.field, a.write, a.nOps))
+
+/-- `subscribe`: outside `assert` the awaiter is touched through the CAS's expected value only (`_next`: read, and written back by a
+failed try — `SignalClock.hbTry`), and not after the CAS that publishes it -/
+theorem c03_signal_subscribe_accesses :
+    plainShape Generated.plainAccesses "awaiter" "subscribe" = [("", "_next", true, 0)] := by decide
+
+/-- `resume_chain_lk` per node: read `chain->_next`, write `y->_next`, `y->resume()` — `SignalClock.hbWalkNode` -/
+theorem c03_signal_walk_accesses :
+    (plainShape Generated.plainAccesses "awaiter" "resume_chain_lk").map (fun r => (r.1, r.2.1, r.2.2.1))
+      = [("chain", "_next", false), ("y", "_next", true), ("", "call:resume", false)] := by decide
 
 end Cocls.C03b
